@@ -68,7 +68,10 @@ class EquationParser(object):
             # Any usage of 'exogenous' switches over to the Exogenous block
             # I could skip this, but would need to use eval(), which is dangerous with
             # untrusted inputs.
-            if 'exogenous' in equation.lower():
+            # A trailing comment is free text: the marker word counts in the code part of a line, or in a
+            # comment-only line (like the "# Exogenous Variables" line that the model emits).
+            code = equation.split('#')[0].strip()
+            if 'exogenous' in (code if len(code) > 0 else equation).lower():
                 mode = 'exogenous'
                 continue
             # Remove comments (like this one!)
